@@ -1355,6 +1355,74 @@ fn run(ctx: &mut Ctx) {
             }
         }
     }
+    // Family L: large files made almost entirely of multi-byte characters (3-byte CJK, 4-byte emoji, 2-byte accented
+    // letters), shifted by 0..=24 bytes of ASCII padding (longer than any ASCII run of the text) so that a multi-byte character lies across EVERY byte offset that
+    // is a multiple of 512 (and therefore of every usual buffer size) in one of the shifts. Sizes 5 KiB .. 160 KiB.
+    {
+        let mut n_l = 0u64;
+        for copies in [20usize, 40, 100, 700] {
+            for shift in 0..=24usize {
+                n_l += 1;
+                if !ctx.next_is_mine() {
+                    ctx.skip_cases(1);
+                    continue;
+                }
+                let mut text = format!("; {}\n\n", "p".repeat(shift));
+                for i in 0..copies {
+                    text.push_str(&format!(
+                        "2024/01/{:02} * \u{65e5}\u{672c}\u{8a9e}\u{306e}\u{5e97}\u{1f600}\u{1f4b0}\u{e9}\u{e8}\u{65e5}\u{672c}\u{8a9e}\u{306e}\u{5e97}\u{1f600}\u{1f4b0}\n    ; \u{30e1}\u{30e2}\u{1f600}\u{e9}\u{30e1}\u{30e2}\u{30e1}\u{30e2}\u{1f4b0}\u{30e1}\u{30e2}\n    \u{8cc7}\u{7523}:\u{9280}\u{884c}\u{1f3e6}:\u{666e}\u{901a}\u{9810}\u{91d1}    {} \u{5186}\n    \u{8cbb}\u{7528}:\u{98df}\u{8cbb}\u{e9}\n\n",
+                        1 + i % 28,
+                        1000 + i
+                    ));
+                }
+                ctx.case(
+                    || format!("large multi-byte file: {} transactions, {} bytes, shifted by {} bytes", copies, text.len(), shift),
+                    || match judge_text(&text) {
+                        Judged::Rejected(e) => Outcome::violation("documented-text-rejected/large-multibyte-file", e),
+                        Judged::Holds { .. } => {
+                            tally("L_clause2_and_3_hold");
+                            Outcome::pass(format!("L/{}-transactions", copies))
+                        }
+                        Judged::Fails(sig, detail) => Outcome::violation(format!("{}/large-multibyte-file", sig), detail.chars().take(600).collect::<String>()),
+                    },
+                );
+                flush_tally(ctx);
+            }
+        }
+        ctx.fact("L_texts", n_l);
+    }
+    // Family D: every calendar day of 2019..=2027 (all positions of 1 January in the week, two leap days, every year
+    // boundary) as transaction date, effective date and lot date, in both date spellings
+    {
+        let mut n_d = 0u64;
+        let mut d = chrono::NaiveDate::from_ymd_opt(2019, 1, 1).unwrap();
+        let end = chrono::NaiveDate::from_ymd_opt(2028, 1, 1).unwrap();
+        while d < end {
+            n_d += 1;
+            let day = d;
+            d = d.succ_opt().unwrap();
+            if !ctx.next_is_mine() {
+                ctx.skip_cases(1);
+                continue;
+            }
+            let a = day.format("%Y/%m/%d").to_string();
+            let b = day.format("%Y-%m-%d").to_string();
+            let text = format!("{}={} p\n    A    1 X {{2 Y}} [{}]\n    B\n\n{} q\n    A    1 X [{}]\n    B\n", a, b, a, b, b);
+            ctx.case(
+                || format!("calendar day:\n{}", text),
+                || match judge_text(&text) {
+                    Judged::Rejected(e) => Outcome::violation("documented-text-rejected/calendar-day", e),
+                    Judged::Holds { .. } => {
+                        tally("D_clause2_and_3_hold");
+                        Outcome::pass("D/calendar-day")
+                    }
+                    Judged::Fails(sig, detail) => Outcome::violation(format!("{}/calendar-day", sig), detail),
+                },
+            );
+            flush_tally(ctx);
+        }
+        ctx.fact("D_days", n_d);
+    }
     ctx.fact("R_tokens", nt);
     ctx.fact("R_texts", raw_total);
 }
